@@ -916,8 +916,9 @@ class Inliner:
                 new = _SplitTupleAssign().visit(new)
                 _propagate_copies(new)
                 _sink_temp_copies(new)
-                from .model import _sink_returns
+                from .model import _sink_returns, _unflag_loops
                 _sink_returns(ast.Module(body=[new], type_ignores=[]))
+                _unflag_loops(ast.Module(body=[new], type_ignores=[]))
                 ast.fix_missing_locations(new)
                 fi.raw_node = fi.node
                 self.prog._by_node.pop(id(fi.node), None)
